@@ -149,9 +149,11 @@ def helper_rule(ctx: Ctx, rid: str = "R03.helper") -> None:
         f = mod.functions.get(name)
         if f is None:
             raise AnalysisError(f"anchor vanished: {name}")
-        txt = " ".join(ast.unparse(f.node).split())
-        ok = "block[decoded_address.block_offset]" in txt and ("word" in name or "decoded_address.byte_offset * 8" in txt)
-        r.check(ok, f"{name}|lane", f.loc(), f"{name} no longer selects the word by block_offset and the lane by byte_offset*8")
+        # (which lane of the word is extracted / replaced is decided by R03.lane's abstract interpretation)
+        sel = [n for n in ast.walk(f.node) if isinstance(n, ast.Subscript) and isinstance(n.value, ast.Name) and n.value.id == f.params[1]]
+        ok = bool(sel) and all(isinstance(n.slice, ast.Attribute) and n.slice.attr == "block_offset" and isinstance(n.slice.value, ast.Name)
+                               and n.slice.value.id == f.params[0] for n in sel)
+        r.check(ok, f"{name}|lane", f.loc(), f"{name} no longer selects the word of the block by decoded_address.block_offset")
     r.floor(10)
 
 
@@ -295,12 +297,21 @@ def cfg_rule(ctx: Ctx, rid: str = "R03.cfg") -> None:
     r.check(ok, "WriteBackMemorySystem._write_block_to_memory", f.loc(),
             "_write_block_to_memory does not write word i of the block to block_alinged_address + 4*i", wf)
     # num_words_in_block = 2**num_block_bits ; num_sets = 2**num_index_bits ; set selected by cache_set_index
-    ci = m.method("Cache", "__init__", own=True)
-    txt = " ".join(ast.unparse(ci.node).split())
-    r.check("self.num_words_in_block = 2 ** num_block_bits" in txt, "Cache.num_words_in_block", ci.loc(),
-            "Cache.num_words_in_block is not 2**num_block_bits")
-    r.check("range(2 ** num_index_bits)" in txt or "range(self.num_sets)" in txt, "Cache.sets", ci.loc(),
-            "Cache does not build 2**num_index_bits sets")
+    from ..parsershape import normal_flow
+    ci = m.method("Cache", "__init__")
+    cfl = normal_flow(m, ci)
+    cst = {cfl.canon(e.expr.targets[0]): e.expr.value for e in cfl.effects if e.kind == "store"}  # type: ignore[attr-defined]
+    pbb = f"P{ci.params.index('num_block_bits')}" if "num_block_bits" in ci.params else "?"
+    pib = f"P{ci.params.index('num_index_bits')}" if "num_index_bits" in ci.params else "?"
+    nw = cfl.canon(cst["P0.num_words_in_block"]) if "P0.num_words_in_block" in cst else None
+    r.check(nw in (f"Pow(2, {pbb})", f"LShift(1, {pbb})"), "Cache.num_words_in_block", ci.loc(),
+            f"Cache.num_words_in_block is {nw}, not 2**num_block_bits")
+    sets = cst.get("P0.sets")
+    it = cfl.canon(sets.generators[0].iter) if isinstance(sets, ast.ListComp) and len(sets.generators) == 1 else None
+    ok_sets = it in (f"range(Pow(2, {pib}))", f"range(LShift(1, {pib}))")
+    if not ok_sets and it == "range(P0.num_sets)" and "P0.num_sets" in cst:
+        ok_sets = cfl.canon(cst["P0.num_sets"]) in (f"Pow(2, {pib})", f"LShift(1, {pib})")
+    r.check(ok_sets, "Cache.sets", ci.loc(), f"Cache does not build 2**num_index_bits sets (one per index value): iterates {it}")
     for name in ("read_block", "write_block", "contains"):
         f = m.method("Cache", name, own=True)
         r.check("self.sets[decoded_address.cache_set_index]" in " ".join(ast.unparse(f.node).split()), f"Cache.{name}", f.loc(),
